@@ -155,3 +155,17 @@ package conversion
 //@     invariant forall t reflect.Value {t.rfrom} :: old(allocated(rroot(t))) && !within(t, v) ==> t.rfrom == old(t.rfrom)
 //@     invariant forall t reflect.Value {t.rval} :: old(allocated(rroot(t))) && !within(t, v) ==> t.rval == old(t.rval)
 //@     invariant forall t reflect.Value {t.rlen} :: old(allocated(rroot(t))) && !within(t, v) ==> t.rlen == old(t.rlen)
+
+// DecodeFrom (used by proxy.Call2 when the remote method returns another type than the proxy
+// expects): the value is decoded into a fresh instance of the remote type and that very instance is
+// converted into the caller's destination; a failed decode (short read, C08) or a refused
+// conversion (C20) is returned, never swallowed.
+//@ func DecodeFrom(d encoding.Decoder, x interface{}, typ reflect.Type) (err error)
+//@   tags C08 C20
+//@   requires d != nil && typ != nil
+//@   modifies everything
+//@   ensures[C08] forall rr io.Reader {rr.short} :: (rr.short ==> err != nil || old(rr.short)) && (old(rr.short) ==> rr.short)
+//@   call convertFrom#1: assert[C20] arg1 == from
+// environment assumption: the caller's destination existed before the fresh instance was allocated,
+// so the two are different objects (the thin model does not date the root of reflect.ValueOf(x))
+//@   call convertFrom#1: assume rroot(arg0) != rroot(arg1)
